@@ -48,7 +48,8 @@ NAMESPACE = "Coap.C09"
 REQUIRED_THEOREMS = ["block_opt_roundtrip", "blocks_tile_body", "rblock_represents", "reassembly_exact", "block_fits_mtu",
                      "never_wrong_body_partial", "at_most_once_per_transfer_partial",
                      "never_wrong_body_block2_partial", "at_most_once_block2_partial", "per_block_tiles_once_partial", "server_block2_genuine", "first_block_genuine",
-                     "client_block1_slices", "client_block1_genuine_partial", "adl_release_once", "release_exactly_once",
+                     "client_block1_slices", "client_block1_genuine", "adl_release_once", "release_exactly_once",
+                     "block2_hostile_no_unwritten_bytes", "block2_hostile_prefix_of_body", "block2_hostile_per_block",
                      "request_tag_tells_transfers_apart", "never_wrong_body_block2_composed_partial",
                      "never_wrong_body_block1_composed_partial", "response_path_params_ok"]
 RULE = ("Layer A: block option values (all single bytes, random 0-3 byte values, boundary NUMs), setup_block_b / coap_write_block_b_opt / "
@@ -118,12 +119,14 @@ def extract(ctx):
 
 
 def harness(ctx):
-    core = os.path.join(C.VERIF, "harness", "block_sim.h")
-    out = os.path.join(C.build_libcoap(), "h_block")
-    src = os.path.join(C.REPO, "src", "coap_block.c")
-    if os.path.exists(out) and max(os.path.getmtime(core), os.path.getmtime(src)) > os.path.getmtime(out):
+    bdir = C.build_libcoap()
+    out = os.path.join(bdir, "h_block")
+    deps = [os.path.join(C.VERIF, "harness", "block_sim.h"), os.path.join(C.VERIF, "harness", "sim_core.h"),
+            os.path.join(C.REPO, "src", "coap_block.c")]
+    if os.path.exists(out) and max(os.path.getmtime(d) for d in deps) > os.path.getmtime(out):
         os.unlink(out)
-    return simlib.build_sim_harness("block")
+    # allocation wrap of harness/block.c: poison for never-written bytes, live count for leaks
+    return C.build_harness("block", bdir, wraps=simlib.SIM_WRAPS + ["coap_malloc_type", "coap_realloc_type", "coap_free_type"])
 
 
 # --------------------------------------------------------------------------
@@ -334,6 +337,112 @@ def gen_crcv(rng, n):
     return L
 
 
+def gen_crcv_hostile(rng, n):
+    """a server that is NOT libcoap (C02: hostile input in the middle of a block-wise transfer): SZX changed in the middle
+    of the transfer in both directions (NUM rescaled to the same offset, as a naive receiver would accept it, or not),
+    Size2 absent / too small / too large / different on every response, blocks nobody asked for (far ahead, behind),
+    blocks without More in the middle, payloads shorter than the block, duplicates, flipped More bits.  Every payload is
+    cut from the one body at the offset the Block2 option names, so whatever is delivered must be a prefix of the body
+    (single-body) / that very slice (per-block), must not depend on never-written memory (` UNINIT`) and nothing may leak."""
+    L = []
+    for _ in range(n):
+        s0 = rng.randrange(3) if rng.random() < 0.8 else rng.randrange(7)
+        c0 = 16 << s0
+        ln = rng.choice([rng.randrange(1, 9 * c0), rng.randrange(2, 7) * c0, rng.randrange(2, 7) * c0 + 1, rng.randrange(2, 7) * c0 - 1])
+        single = rng.choice([1, 1, 1, 0])
+        line_s2 = rng.choice(["-", "-", str(ln), str(rng.randrange(ln + 1)), str(ln + rng.randrange(1, 3 * c0))])
+        kind = rng.choice(["szx", "szx", "size2", "short", "ahead", "mix", "mix"])
+        items = []
+        cur, off = s0, 0
+        steps = 0
+        switched = False
+        while off < ln and steps < 24:
+            steps += 1
+            c = 16 << cur
+            num = off // c
+            m = 1 if off + c < ln else 0
+            ln_f, s2_f = None, None
+            r = rng.random()
+            if kind in ("szx", "mix") and (r < 0.18 or (not switched and off >= ln // 2)):
+                # change the block size, up or down; NUM rescaled to the current offset if that is a block boundary there
+                new = rng.choice([x for x in range(7) if x != cur and abs(x - cur) <= 3] or [cur])
+                switched = True
+                if rng.random() < 0.25:
+                    items.append("%d.%d.%d.0.42" % (off // (16 << new), 1 if (off // (16 << new) + 1) * (16 << new) < ln else 0, new))
+                    if rng.random() < 0.5:
+                        continue                      # … once, then on in the old size
+                cur = new
+                c = 16 << cur
+                num = off // c
+                m = 1 if (num + 1) * c < ln else 0
+            if kind in ("size2", "mix") and rng.random() < 0.5:
+                s2_f = rng.choice([0, ln + 1, rng.randrange(ln + 1) + 1, ln + 1 + rng.randrange(1, 4 * c), off + c + 1 + rng.randrange(3)])
+            if kind in ("short", "mix") and rng.random() < 0.2:
+                ln_f = rng.randrange(0, c + 1)
+                if rng.random() < 0.7:
+                    m = 0                             # a short block pretending to be the last one
+            if kind in ("ahead", "mix", "size2") and rng.random() < 0.2:
+                # a block nobody asked for: far ahead / behind, with or without More, sometimes without Size2
+                k2 = rng.randrange(0, ln // c + 3)
+                items.append("%d.%d.%d.0.42.99999.%d" % (k2, rng.choice([1, 1, 0]) if (k2 + 1) * c < ln + c else 0, cur,
+                                                         rng.choice([0, 0, ln + 1, ln + 1 + rng.randrange(1, 5 * c)])))
+            if rng.random() < 0.05:
+                m = 1 - m
+            it = "%d.%d.%d.0.42" % (num, m, cur)
+            if ln_f is not None or s2_f is not None:
+                it += ".%d" % (99999 if ln_f is None else ln_f)
+            if s2_f is not None:
+                it += ".%d" % s2_f
+            items.append(it)
+            if rng.random() < 0.08:
+                items.append(it)                      # duplicate
+            off = (num + 1) * c
+        if rng.random() < 0.3:
+            # … and the whole body once more, cleanly, in the first size: a transfer after the hostile one must still work
+            nb = (ln + c0 - 1) // c0
+            items += ["%d.%d.%d.0.42" % (k, 1 if k + 1 < nb else 0, s0) for k in range(nb)]
+        L.append("crcv %d %d %d %s %s" % (single, ln, rng.randrange(256), line_s2, ",".join(items[:40])))
+    return L
+
+
+def gen_xmit1_hostile(rng, n):
+    """client Block1 against a server that is not libcoap: 2.31 asking for a LARGER block size (at the first block, in the
+    middle, repeatedly, NUM in the client's unit or rescaled to the larger one), mixed with genuine reductions, duplicates
+    and stale acknowledgements: every block message must be the slice for its NUM/SZX with the right More bit"""
+    L = []
+    for _ in range(n):
+        mtu = rng.choice([1152, 1152, 1500, rng.randrange(100, 1300)])
+        szx = rng.randrange(6)
+        cs = rng.choice(["-", str(szx), str(szx)])
+        ceff = min((16 << szx) if cs != "-" else 1024, 1 << max(4, (max(mtu - 80, 16)).bit_length() - 1))
+        cur = ceff.bit_length() - 5
+        ln1 = rng.choice([rng.randrange(ceff + 1, 9 * ceff), rng.randrange(2, 7) * ceff, rng.randrange(2, 7) * ceff + 1])
+        items = []
+        k = 0
+        nb1 = (ln1 + ceff - 1) // ceff
+        while k < nb1 and len(items) < 30:
+            c = 16 << cur
+            nb1 = (ln1 + c - 1) // c
+            last = k >= nb1 - 1
+            rr = rng.random()
+            if rr < 0.3 and cur < 6:
+                big = rng.randrange(cur + 1, 7)
+                # NUM as the client counts, or rescaled to the larger size (what a confused server would name)
+                items.append("95.%d.%d" % (k if rng.random() < 0.6 else (k * c) // (16 << big), big))
+            elif rr < 0.4 and cur > 0 and not last:
+                new = rng.randrange(cur)
+                k = ((k + 1) << (cur - new)) - 1
+                cur = new
+                items.append("95.%d.%d" % (k, cur))
+            else:
+                items.append("%d.%d.%d" % (68 if last else 95, k, cur))
+            if rng.random() < 0.1:
+                items.append(items[-1])
+            k += 1
+        L.append("xmit1 %s %d %d %d %s" % (cs, ln1, rng.randrange(256), mtu, ",".join(items) or "-"))
+    return L
+
+
 def gen_xmit(rng, n):
     """the sender side (real coap_handle_request_send_block / coap_handle_response_send_block on a real lg_xmit)"""
     L = []
@@ -438,7 +547,8 @@ def generate(ctx, escalate=False):
     n = 3000 if ctx.thorough() else 400
     if escalate:
         n *= 3
-    return gen_layer_a(ctx, n) + gen_crcv(ctx.rng, n * 2) + gen_xmit(ctx.rng, n) + gen_rtag(ctx.rng, n) + gen_layer_b(ctx, n * 3)
+    return gen_layer_a(ctx, n) + gen_crcv(ctx.rng, n * 2) + gen_xmit(ctx.rng, n) + gen_rtag(ctx.rng, n) + gen_layer_b(ctx, n * 3) + \
+        gen_crcv_hostile(ctx.rng, n * 2) + gen_xmit1_hostile(ctx.rng, n)
 
 
 # --------------------------------------------------------------------------
@@ -472,6 +582,12 @@ def spec_layer_a(ctx, c):
     op = w[0]
     if i.startswith("crash"):
         return "the real code crashed: " + i[:200]
+    if " UNINIT" in i:
+        return "what the application is handed depends on bytes nobody wrote (two runs with different allocation poisons differ): " + i[:160]
+    if " LEAK=" in i:
+        return "memory allocated by libcoap during this case was not freed when the contexts were: " + i[-40:]
+    if "DANGLING" in i:
+        return "the refused coap_add_data_large_request left pdu->lg_xmit pointing at the lg_xmit it freed: " + i[:80]
     if op == "benc":
         num, m, szx = map(int, w[1:4])
         if num < (1 << 20) and szx <= 6:
@@ -583,6 +699,18 @@ def spec_layer_a(ctx, c):
         body = mk_body(ln, seed)
         its = [x.split(".") for x in w[5].split(",")]
         genuine = crcv_genuine(w)
+        # EVERY line, hostile or not: every payload the harness sends is cut from the one body at the offset its Block2
+        # option names, so a reassembled body must be a prefix of it and a block / random-access delivery that very slice
+        for o in i.split(","):
+            mm = re.match(r"([hH])(\d+):(\d+):(\d+):([0-9a-f]{8})", o)
+            if not mm:
+                continue
+            kind, off, l, tot, h = mm.group(1), int(mm.group(2)), int(mm.group(3)), int(mm.group(4)), mm.group(5)
+            if single and kind == "H":
+                if off != 0 or l > ln or h != fnv(body[:l]):
+                    return "the response handler was given %s as the body: not the first %d bytes of what the server sent (%s)" % (o, l, fnv(body[:l]))
+            elif l and (off + l > ln or h != fnv(body[off:off + l])):
+                return "the response handler was given %s, which is not what the server sent for that offset" % o
         if genuine:
             for o in i.split(","):
                 mm = re.match(r"([hH])(\d+):(\d+):(\d+):([0-9a-f]{8})", o)
@@ -603,12 +731,8 @@ def spec_layer_a(ctx, c):
         items = [None] + (w[5].split(",") if w[5] != "-" else [])
         cur = re.search(r" lg=(-?\d+)", i)
         cur = int(cur.group(1)) if cur else -1
-        larger = False
+        larger = False           # (a 2.31 asking for a larger size is ignored since fix 650c3a2: the More bit is always judged)
         for it, o in zip(items, outs):
-            # a response asking for a LARGER block size than the client currently uses is outside what a libcoap server does
-            # (the client then computes M in the old unit): the More bit is not judged from there on
-            if op == "xmit1" and it and it.count(".") == 2 and int(it.split(".")[2]) > cur:
-                larger = True
             st = re.search(r"/(\d+)\.\d+\.-?\d+$", o)
             if st:
                 cur = int(st.group(1))
@@ -682,10 +806,6 @@ def judge(ctx, c):
         # a block shorter than the announced size leaves never-written (malloc'd) bytes in the buffer: compare shapes only
         ii = re.sub(r":[0-9a-f]{8}(,|$)", r":*\1", ii)
         m = re.sub(r":[0-9a-f]{8}(,|$)", r":*\1", m or "")
-    if c["input"].startswith("crcv") and c["input"].split()[1] == "1" and not crcv_genuine(c["input"].split()):
-        # short payloads / mixed block sizes leave never-written (malloc'd) bytes in the buffer: compare shapes only
-        ii = re.sub(r":[0-9a-f]{8}", ":*", ii)
-        m = re.sub(r":[0-9a-f]{8}", ":*", m or "")
     if c["input"].startswith("srcv3"):
         its = [x.split(".") for x in c["input"].split()[7].split(",")]
         if {x[4] for x in its if x[0] == "0"} & {x[4] for x in its if x[0] == "1"}:
@@ -712,6 +832,8 @@ def judge_xfer(ctx, c):
     i = c["impl"] or ""
     if i.startswith("crash") or not i or "end:" not in i:
         return ("spec", "the transfer crashed or hung the real code: " + i[:200])
+    if " LEAK=" in i:
+        return ("spec", "memory allocated by libcoap during this transfer was not freed when the contexts were: " + i[-40:])
     bodies = [mk_body(l, s) for l, s in zip(x["len"], x["seed"])]
     ntr = len(bodies)
     toks = i.split()
@@ -892,7 +1014,8 @@ def classify(c):
 
 
 def search(ctx, tie_breaks, proof):
-    return gen_layer_a(ctx, 1500) + gen_crcv(ctx.rng, 3000) + gen_xmit(ctx.rng, 1500) + gen_rtag(ctx.rng, 1500)
+    return gen_layer_a(ctx, 1500) + gen_crcv(ctx.rng, 3000) + gen_xmit(ctx.rng, 1500) + gen_rtag(ctx.rng, 1500) + \
+        gen_crcv_hostile(ctx.rng, 3000) + gen_xmit1_hostile(ctx.rng, 1500)
 
 
 def known(ctx, c):
